@@ -2,6 +2,7 @@ CONSTANTS
   Family = "text"
   Unit = "utf16"
   MaxOps = 6
+  Shape <- NoShape
 SPECIFICATION Spec
 INVARIANTS InvWellFormed InvUniqueTags PrintSchedules
 CHECK_DEADLOCK FALSE
